@@ -32,6 +32,9 @@ CLAIMED = {
     "C08": ("exploration",
             "Seeded search over schedules of the real fsloop producers, consumers and completion goroutine (all locks, wait groups, channel operations and a random subset of statement boundaries are scheduling points), over tree shapes, filters, limits, queue capacities, latencies and one injected listing/callback error; oracle: exactly-once multiset against a model walk, concurrency bound, wait-after-last-callback, termination under a fair tail.",
             "Sampling, not enumeration. Trusted: simrt primitives model sync faithfully; preemption granularity is the statement, not the instruction."),
+    "C09": ("exploration",
+            "Seeded schedules of 2-4 clients x 1-6 operations on a tiny shared name space of one memfs; invoke/return stamped with a global event counter; oracle = the statement's clauses: regular register per file (complete values only, no stale read after a completed overwrite), single-writer paths keep the writer's last value, final content is a written value, listings have unique names, no panic / deadlock, termination; happens-before probe on the directory index maps.",
+            "Sampling. Full linearizability of the tree is deliberately not demanded (the statement does not make directory copies atomic). Races on plain fields are invisible under serialised execution."),
     "C12": ("exploration",
             "Seeded search over schedules of 2-6 actors signalling one scope (plain, shared-context child, isolated child) with AppendError/Kill/Stop/IsDone/Err/Errors, and of child creation+close racing with the end of the parent; oracle: no panic or fatal error, every appended error retained and reported by Err/Wait/Close, done exactly once, isolation of isolated children.",
             "Sampling. Data races on plain fields (the unsynchronised read of the error slice) are outside what serialised execution can observe."),
